@@ -73,4 +73,6 @@ def main(tier, seed):
     lem = runner.run_lemmas(('sec',))
     meta = dict(META)
     meta['checker_cmd'] = './check C19 %s' % tier
-    return runner.main_run('C19', tier, units(tier, seed), meta, lemma_results=lem)
+    us = units(tier, seed)
+    meta['bounds'] = list(meta['bounds']) + ['change-directed selection on this run: %s' % (c18.SELECTION or 'no data files')]
+    return runner.main_run('C19', tier, us, meta, lemma_results=lem)
